@@ -716,6 +716,9 @@ func horzSegSort(hs1, hs2 *HorzSegment) int {
 	if hs1.leftOp.pt.X == hs2.leftOp.pt.X {
 		return 0
 	}
+	if hs1.leftOp.pt.X > hs2.leftOp.pt.X {
+		return 1
+	}
 
 	return -1
 }
